@@ -379,6 +379,44 @@ func scenario(sc stateClass, pos int, mid string, after int) []string {
 
 func key(ls []string) string { return strings.Join(ls, ";") }
 
+// largeScenarios: the size tier, run in every tier (quick too). One deque of 100..300 elements on a
+// wrapped ring (pushes at both ends through every doubling, then a rotation), and for every class of
+// mid-iteration call one scenario at a position inside the snapshot and one at a boundary position
+// drawn from {0, 1, len-1, len, len+1},
+// plus the unchanged drain. The enumeration stops at 5 elements and the random interleavings rarely
+// exceed 40, so a change of the code guarded by `d.Len() > 64` is invisible to them.
+func largeScenarios(r *vlib.Rand) [][]string {
+	n := r.Range(100, 300)
+	var pre []string
+	val := 1000
+	for i := 0; i < n; i++ {
+		val++
+		if r.Chance(1, 3) {
+			pre = append(pre, fmt.Sprintf("pushfront %d", val))
+		} else {
+			pre = append(pre, fmt.Sprintf("pushback %d", val))
+		}
+	}
+	for i := r.Range(10, 200); i > 0; i-- {
+		val++
+		pre = append(pre, fmt.Sprintf("pushback %d", val), "popfront")
+	}
+	sc := stateClass{name: "large", ops: pre, n: n}
+	mids := []string{"pushfront 900", "pushback 901", "popfront", "popback", "front", "back", "len",
+		"item 0", fmt.Sprintf("item %d", n-1), fmt.Sprintf("item %d", n), "set -1 902", fmt.Sprintf("set %d 903", n),
+		"set 0 904", fmt.Sprintf("set %d 905", n-1), fmt.Sprintf("set %d 906", r.Intn(n)),
+		"grow 0", "grow 1", fmt.Sprintf("grow %d", 2*n+300), "shrink -1", "shrink 0", "shrink 1", "shrink 10000", "iter"}
+	var out [][]string
+	out = append(out, scenario(sc, n+3, "", 0))
+	for _, mid := range mids {
+		// once well inside the snapshot (iteration certainly under way, not exhausted), once at a boundary
+		out = append(out, scenario(sc, 1+r.Intn(n-1), mid, 3))
+		pos := []int{0, 1, n - 1, n, n + 1}[r.Intn(5)]
+		out = append(out, scenario(sc, pos, mid, 3))
+	}
+	return out
+}
+
 // genRandom: a random interleaving of deque calls and Next calls on up to three iterators.
 func genRandom(r *vlib.Rand, res *vlib.Result) []string {
 	var ls []string
@@ -511,8 +549,23 @@ func (c *checker) reportDiff(ls []string) {
 	c.res.Fail(vlib.Failure{Source: "correspondence", Kind: "c15-deque-model-differs", What: what, Case: small})
 }
 
+// withStateFrom: `state` lines only after the lines from index `from` on (the prefix that builds a large
+// deque is compared by its return values; the raw ring is compared from the iterator's creation on).
+func withStateFrom(ls []string, from int) []string {
+	out := make([]string, 0, 2*len(ls))
+	for i, l := range ls {
+		out = append(out, l)
+		if i >= from {
+			out = append(out, "state")
+		}
+	}
+	return out
+}
+
 // batch runs monitor + correspondence on a batch of scenarios (one exchange with the model).
-func (c *checker) batch(cases [][]string) {
+func (c *checker) batch(cases [][]string) { c.batchFrom(cases, 0) }
+
+func (c *checker) batchFrom(cases [][]string, from int) {
 	for _, ls := range cases {
 		c.monitorCase(ls)
 	}
@@ -521,7 +574,7 @@ func (c *checker) batch(cases [][]string) {
 	}
 	in := make([][]string, len(cases))
 	for i, ls := range cases {
-		in[i] = withState(ls)
+		in[i] = withStateFrom(ls, from)
 	}
 	outs, err := c.m.RunMany(in)
 	if err != nil {
@@ -541,7 +594,7 @@ func main() {
 	env := vlib.GetEnv()
 	res := vlib.NewResult("C15", "deque: every state class with len <= 5 (unallocated, empty cap 16/cap 0, cap 16 with each front offset 0..15, exact fit and one spare slot after Shrink with each rotation) "+
 		"x iterator position 0..len+1 x every mid-iteration call class (pushes, pops, Set at each index and out of range, Grow/Shrink with and without reallocation, reads, a second Iterate) x 3 further Next calls "+
-		"(thorough: all of them; quick: a seed-dependent third plus all of len <= 2), then random interleavings with up to 3 iterators incl. full rings of 16/32; "+
+		"(thorough: all of them; quick: a seed-dependent third plus all of len <= 2), then random interleavings with up to 3 iterators incl. full rings of 16/32, and in every tier one wrapped deque of 100..300 elements with two scenarios per mid-iteration call class (a position inside the snapshot; one of 0, 1, len-1, len, len+1) and the unchanged drain; "+
 		"non-trivial = a mid-iteration call or >= 2 iterators with at least one Next after it; distinct = different line sequence")
 	m, err := vlib.StartModel(env.Driver, "deque")
 	if err != nil {
@@ -637,6 +690,26 @@ enum:
 	flush()
 	res.Exhaustive = full && complete
 	res.Dist["enum-state-classes"] = len(stateClasses(5))
+
+	{
+		// the size tier (every run)
+		var cs [][]string
+		if p, v := vlib.Try(func() { cs = largeScenarios(r.Fork()) }); p {
+			res.Fail(vlib.Failure{Source: "correspondence", Kind: "c15-deque-harness-panic", What: fmt.Sprintf("generator of the large scenarios panicked: %v", v)})
+		}
+		from := 0
+		for _, ls := range cs {
+			res.Count("large")
+			res.Case(key(ls), strings.Count(key(ls), "next") > 0, nil)
+			for i, l := range ls {
+				if l == "iter" {
+					from = i
+					break
+				}
+			}
+		}
+		c.batchFrom(cs, from)
+	}
 
 	deadline := start.Add(time.Duration(env.BudgetMs) * time.Millisecond)
 	maxCases := 4000
